@@ -343,14 +343,16 @@ fn run_history_e<E: Eng>(m: &Model, decoder: bool, kind: Kind, k: usize, r: usiz
                     let d = dec.as_mut().unwrap();
                     match op {
                         Op::AddO(i, len) => {
-                            let data = if *i < spec.k { Some(m.originals(&spec)[*i].clone()) } else { None };
+                            // a call the model expects to FAIL carries foreign bytes: if the failing call
+                            // stores anything, later results change and the twin runs of C07 see it
+                            let data = if *i < spec.k && !matches!(exp, Expect::ErrAny(_)) { Some(m.originals(&spec)[*i].clone()) } else { None };
                             match d.add_original(*i, &shard_for(*len, data.as_ref())) {
                                 Ok(()) => Obs::Ok,
                                 Err(e) => Obs::Err(e),
                             }
                         }
                         Op::AddR(j, len) => {
-                            let data = if *j < spec.r { Some(m.recovery(&spec)[*j].clone()) } else { None };
+                            let data = if *j < spec.r && !matches!(exp, Expect::ErrAny(_)) { Some(m.recovery(&spec)[*j].clone()) } else { None };
                             match d.add_recovery(*j, &shard_for(*len, data.as_ref())) {
                                 Ok(()) => Obs::Ok,
                                 Err(e) => Obs::Err(e),
@@ -393,7 +395,7 @@ fn run_history_e<E: Eng>(m: &Model, decoder: bool, kind: Kind, k: usize, r: usiz
                 let e = enc.as_mut().unwrap();
                 match op {
                     Op::Add(len) => {
-                        let data = if spec.received < spec.k { Some(m.originals(&spec)[spec.received].clone()) } else { Some(m.originals(&spec)[0].clone()) };
+                        let data = if spec.received < spec.k && !matches!(exp, Expect::ErrAny(_)) { Some(m.originals(&spec)[spec.received].clone()) } else { None };
                         match e.add(&shard_for(*len, data.as_ref())) {
                             Ok(()) => Obs::Ok,
                             Err(e) => Obs::Err(e),
